@@ -352,7 +352,7 @@ size_t varintAdaptiveEncodeWith(uint8_t *dst, const uint64_t *values,
     }
 
     case VARINT_ADAPTIVE_FOR: {
-        varintFORMeta forMeta;
+        varintFORMeta forMeta = {0};
         encodedSize = varintFOREncode(dst + offset, values, count, &forMeta);
 
         if (meta) {
@@ -362,7 +362,7 @@ size_t varintAdaptiveEncodeWith(uint8_t *dst, const uint64_t *values,
     }
 
     case VARINT_ADAPTIVE_PFOR: {
-        varintPFORMeta pforMeta;
+        varintPFORMeta pforMeta = {0};
         encodedSize = varintPFOREncode(dst + offset, values, (uint32_t)count,
                                        VARINT_PFOR_THRESHOLD_95, &pforMeta);
 
@@ -463,7 +463,7 @@ size_t varintAdaptiveDecode(const uint8_t *src, uint64_t *values,
     }
 
     case VARINT_ADAPTIVE_PFOR: {
-        varintPFORMeta pforMeta;
+        varintPFORMeta pforMeta = {0};
         varintPFORReadMeta(data, &pforMeta);
         decoded = varintPFORDecode(data, values, &pforMeta);
 
